@@ -1329,3 +1329,122 @@ fn main() {}
 
 
 CERTS["uri_path_prefix"] = lambda: path_prefix_cert(dfa.reference("rfc3986.abnf", "path"))
+
+
+def path_algebra_cert(PA, SG, b_name="Path", s_name="Segment"):
+    """closure facts about the path language used by the path edits: concatenation, cutting at a '/', segments are paths"""
+    assert PA.finals == {0} and PA.step(0, SLASH) == 0
+    others = [q for q in range(PA.n) if q != 0]
+    src = PRELUDE + "// %s: %d states\n" % (b_name, PA.n) + dfa._step_spec(b_name, PA) + "\n" + RUN.format(n=b_name)
+    src += "// %s: %d states\n" % (s_name, SG.n) + dfa._step_spec(s_name, SG) + "\n" + RUN.format(n=s_name)
+    # segment inclusion: product pairs
+    pts = sorted(set(_points(PA) + _points(SG)))
+    pairs = set([(0, 0)])
+    dq = deque(pairs)
+    while dq:
+        a, b = dq.popleft()
+        for c in pts:
+            na = SG.step(a, c)
+            if na < 0:
+                continue
+            nb = PA.step(b, c) if b >= 0 else -1
+            if (na, nb) not in pairs:
+                pairs.add((na, nb)); dq.append((na, nb))
+    rel, by = _rel_spec("sp_rel", pairs)
+    src += rel + """
+proof fn sp_step(a: int, b: int, c: int)
+    requires sp_rel(a, b), %(S)s_step(a, c) >= 0,
+    ensures sp_rel(%(S)s_step(a, c), if b >= 0 { %(B)s_step(b, c) } else { -1int }),
+{ }
+proof fn sp_end(a: int, b: int)
+    requires sp_rel(a, b), %(S)s_final(a),
+    ensures b >= 0 && %(B)s_final(b),
+{ }
+proof fn sp_ind(a: int, b: int, t: Seq<int>)
+    requires sp_rel(a, b), %(S)s_run(a, t),
+    ensures b >= 0 && %(B)s_run(b, t),
+    decreases t.len()
+{
+    if t.len() == 0 { sp_end(a, b); } else {
+        let c = t[0];
+        if %(S)s_step(a, c) < 0 { %(S)s_dead(t.drop_first()); }
+        sp_step(a, b, c);
+        sp_ind(%(S)s_step(a, c), if b >= 0 { %(B)s_step(b, c) } else { -1int }, t.drop_first());
+    }
+}
+/// FACT: a valid segment is a valid path
+pub proof fn comp_segment_is_path(x: Seq<int>)
+    requires %(S)s_run(0, x),
+    ensures %(B)s_run(0, x),
+{
+    sp_ind(0, 0, x);
+}
+proof fn only_zero_final(q: int)
+    requires q >= 0, %(B)s_final(q) || %(B)s_step(q, 47) >= 0,
+    ensures q == 0,
+{ }
+/// FACT: the concatenation of two valid paths is a valid path
+pub proof fn comp_path_concat(u: Seq<int>, v: Seq<int>)
+    requires %(B)s_run(0, u), %(B)s_run(0, v),
+    ensures %(B)s_run(0, u + v),
+{
+    let w = u + v;
+    %(B)s_run_at(0, u);
+    only_zero_final(%(B)s_at(0, u, u.len() as int));
+    %(B)s_split(0, w, u.len() as int);
+    assert forall|i: int| 0 <= i < u.len() implies u[i] == w[i] by { }
+    %(B)s_at_prefix(0, u, w, u.len() as int);
+    assert(w.skip(u.len() as int) =~= v);
+}
+/// FACT: a valid path cut at its end, or right before a '/', gives two valid paths
+pub proof fn comp_path_split(u: Seq<int>, v: Seq<int>)
+    requires %(B)s_run(0, u + v), v.len() == 0 || v[0] == 47,
+    ensures %(B)s_run(0, u), %(B)s_run(0, v),
+{
+    let w = u + v;
+    %(B)s_split(0, w, u.len() as int);
+    assert(w.skip(u.len() as int) =~= v);
+    let q = %(B)s_at(0, w, u.len() as int);
+    if q < 0 { %(B)s_dead(v); }
+    if v.len() > 0 { if %(B)s_step(q, 47) < 0 { %(B)s_dead(v.drop_first()); } }
+    only_zero_final(q);
+    assert forall|i: int| 0 <= i < u.len() implies u[i] == w[i] by { }
+    %(B)s_at_prefix(0, u, w, u.len() as int);
+    %(B)s_at_run(0, u);
+}
+/// FACT: what follows a '/' inside a valid path is a valid path
+pub proof fn comp_path_strip_slash(r: Seq<int>)
+    requires %(B)s_run(0, seq![47int] + r),
+    ensures %(B)s_run(0, r),
+{
+    let w = seq![47int] + r;
+    assert(w[0] == 47); assert(w.drop_first() =~= r);
+    assert(%(B)s_step(0, 47) == 0);
+}
+/// FACT: the constant path texts the edits insert
+pub proof fn comp_path_consts()
+    ensures %(B)s_run(0, Seq::<int>::empty()), %(B)s_run(0, seq![47int]), %(B)s_run(0, seq![46int]), %(B)s_run(0, seq![46int, 46int]),
+        %(B)s_run(0, seq![46int, 47int]), %(B)s_run(0, seq![47int, 47int]), %(S)s_run(0, seq![46int, 46int]), %(S)s_run(0, Seq::<int>::empty()),
+{
+    assert(%(B)s_step(0, 47) == 0 && %(B)s_step(0, 46) == 0);
+    let z = Seq::<int>::empty();
+    assert(%(B)s_run(0, z));
+    let a = seq![47int]; assert(a.drop_first() =~= z); assert(a[0] == 47);
+    assert(%(B)s_run(0, a));
+    let b = seq![46int]; assert(b.drop_first() =~= z); assert(b[0] == 46);
+    assert(%(B)s_run(0, b));
+    let c = seq![46int, 46int]; assert(c.drop_first() =~= b); assert(c[0] == 46);
+    let d = seq![46int, 47int]; assert(d.drop_first() =~= a); assert(d[0] == 46);
+    let e = seq![47int, 47int]; assert(e.drop_first() =~= a); assert(e[0] == 47);
+    assert(%(S)s_run(0, z));
+    assert(%(S)s_step(0, 46) >= 0 && %(S)s_final(%(S)s_step(0, 46)) && %(S)s_step(%(S)s_step(0, 46), 46) >= 0 && %(S)s_final(%(S)s_step(%(S)s_step(0, 46), 46)));
+    assert(%(S)s_run(%(S)s_step(%(S)s_step(0, 46), 46), z));
+    assert(%(S)s_run(%(S)s_step(0, 46), b));
+}
+} // verus!
+fn main() {}
+""" % {"B": b_name, "S": s_name}
+    return src, {"pairs": len(pairs), "lemmas": 8}
+
+
+CERTS["uri_path_algebra"] = lambda: path_algebra_cert(dfa.reference("rfc3986.abnf", "path"), dfa.reference("rfc3986.abnf", "segment"))
